@@ -395,6 +395,17 @@ def search(ctx):
         u2 = run_impl(SoftwareCustKeyEncryptor(k, ck2, pos).decrypt, w[1])
         if u2 != ("err", "EBec2"):
             ctx.fail("custkey-mismatch-accepted", {"key": k, "payload": p, "ck": ck, "pos": pos}, repr(u2)[:200])
+        # a frame made WITHOUT a customer key whose slot happens to be blank (zeros), or made with the all-zero key:
+        # an encryptor configured with a non-zero customer key must refuse it like any other mismatch
+        if any(ck):
+            pz = p[:pos] + bytes(10) + p[pos + 10:]
+            for maker in (SoftwareCustKeyEncryptor(k), SoftwareCustKeyEncryptor(k, bytes(10), pos)):
+                wz = run_impl(maker.encrypt, pz)
+                if wz[0] == "ok":
+                    u3 = run_impl(SoftwareCustKeyEncryptor(k, ck, pos).decrypt, wz[1])
+                    if u3 != ("err", "EBec2"):
+                        ctx.fail("custkey-mismatch-accepted", {"key": k, "payload": pz, "ck": ck, "pos": pos, "ct": wz[1]},
+                                 "frame with a blank slot accepted under customer key %s: %s" % (ck.hex(), repr(u3)[:160]))
     # security code variant
     for _ in range(ctx.budget(40, 500)):
         code = bytes(r.randrange(256) for _ in range(8))
